@@ -72,6 +72,9 @@ fn build(ctx: &Ctx) -> Result<String, String> {
     std::fs::create_dir(&w).map_err(|e| e.to_string())?;
     crate::props::c13::build_kinds(&w)?;
     std::os::unix::fs::symlink("r", w.join("lr")).map_err(|e| e.to_string())?;
+    // a sub-directory (and a file in it) named like the starting point: r/r/r
+    std::fs::create_dir(w.join("r/r")).map_err(|e| e.to_string())?;
+    std::fs::write(w.join("r/r/r"), b"rr").map_err(|e| e.to_string())?;
     let u = w.join("u\u{e9}");
     std::fs::create_dir(&u).map_err(|e| e.to_string())?;
     std::fs::write(u.join("\u{e9}t\u{e9}"), b"").map_err(|e| e.to_string())?;
